@@ -147,11 +147,7 @@ def r3(ctx, prog):
         okr, how = rl.value_checked(g, rel[0])
         ctx.check(R, okr, g.where(rel[0]), "the result of the release (all bits were in use?) is checked (%s)" % how, key="C14.R3:check")
         eagain = prog.const("EAGAIN")
-        d = None
-        u = rl.result_use(g, rel[0])
-        if isinstance(u, tuple) and u[0] == "init":
-            d = u[1]
-        hit = [q for p, q, e, pol in rl.edges_with_fact(g, lambda e, pol: isinstance(e, int) and (not pol) and rl.var_of(g, e) == d)] if d is not None else []
+        hit = rl.value_edges(g, rel[0], False)
         okm = bool(hit) and all(g.cfg.must_pass([q], g.cfg.exit_points(), lambda e: rl.is_call(g, e, "_mi_error_message") and g.cv(g.nodes[e]["args"][0]) == eagain) is None for q in hit)
         ctx.check(R, okm, g.where(), "freeing blocks that were not all in use reports EAGAIN (double free of arena memory)", key="C14.R3:eagain")
     h = prog.fn("mi_arena_try_alloc_at")
